@@ -231,7 +231,7 @@ pub fn judge(prop: &str, cases_path: &str, events_path: &str) -> Leg {
         };
         let want = all_records(&up);
         let got = all_records(&cm);
-        if prop == "C04" && (cm.rcode() & 0xf) == 2 && got.is_empty() && (up.rcode() & 0xf) != 2 {
+        if prop == "C04" && (cm.rcode() & 0xf) == 2 && got.is_empty() {
             // a server failure (here: the shared upstream TCP connection was hung up on by the upstream while this query was
             // waiting on it) is well-formed, within every limit and claims nothing about truncation; whether a query may be
             // failed at all is C07's subject
